@@ -339,6 +339,14 @@ pub fn c01_pins() -> Vec<Pin> {
             expect: &[("r", 5)],
         },
         Pin {
+            name: "short_array_rmw_incdec",
+            src: "short sa[4]; short s, t; void main() { sa[2] = 0x0100; --sa[2]; s = sa[2]; Y = 1; sa[Y] = 0x01ff; sa[Y]++; t = sa[1]; }",
+            init: &[],
+            x: 0,
+            y: 0,
+            expect: &[("s", 0x00ff), ("t", 0x0200)],
+        },
+        Pin {
             name: "short_array_rmw",
             src: "short sa[4]; short s; void main() { sa[1] = 0x0300; sa[1] >>= 1; s = sa[1]; }",
             init: &[],
